@@ -126,7 +126,9 @@ func TestVerifC26KeyUpdateAgainstWriter(t *testing.T) {
 	n := 0
 	rapid.Check(t, func(rt *rapid.T) {
 		n++
-		if n > 40 && !vfThorough() {
+		// each case is a full session with hundreds of records under the race detector (~90 ms): bounded by case count,
+		// 40 in the quick tier, 400 per shard in the thorough tier
+		if limit := map[bool]int{false: 40, true: 400}[vfThorough()]; n > limit {
 			return
 		}
 		run(rt, vf26Parrots[rapid.IntRange(0, len(vf26Parrots)-1).Draw(rt, "parrot")].Name,
